@@ -427,8 +427,19 @@ def conservative_malformed(e: str):
                 m = re.match(r"\.(query|path|header|body)" if word == "$request" else r"\.(header|body)", e[j:])
                 if m is None or (e[j + len(m.group(0)):j + len(m.group(0)) + 1] not in ("", ".", "#", "}")):
                     return "bad-source"
-                if m.group(1) != "body" and not re.match(r"\.[^$.{}#]+", e[j + len(m.group(0)):]):
-                    return "missing-name"
+                if m.group(1) != "body":
+                    nm = re.match(r"\.[^$.{}#]+", e[j + len(m.group(0)):])
+                    if nm is None:
+                        return "missing-name"
+                    after = e[j + len(m.group(0)) + len(nm.group(0)):]
+                    if after.startswith("#regex:"):
+                        k = after.find("}")
+                        pat = after[7: k if k >= 0 else len(after)]
+                        try:
+                            if re.compile(pat).groups != 1:
+                                return "extractor-without-exactly-one-group"
+                        except re.error:
+                            return "extractor-not-a-regex"
             i = j
             continue
         i += 1
@@ -527,7 +538,8 @@ def corr_eval(chk, stub, cases, cfg, mechanism="evaluate"):
             if not same_res(impl, spec):
                 if G.has_whole_body_embedding(tmpl) and impl[0] == "err":
                     sig = KF_EMBBODY
-                elif m.get("lenient") and same_res(impl, dec_val(m["specLenient"])):
+                elif m.get("lenient") and impl[0] == "v" and (
+                        dec_val(m["specLenient"]) == ("err", "outOfModel") or same_res(impl, dec_val(m["specLenient"]))):
                     sig = KF_INDEX
                 else:
                     sig = "C10:evaluate:differs-from-the-reference-evaluator"
@@ -747,6 +759,13 @@ def corr_link(chk, cases, cfg, real_draws):
         if link is None:
             continue
         impl_params = [[p.location, p.name, p.container_name] for p in link.parameters]
+        loc2cont = {"path": "path_parameters", "query": "query", "header": "headers", "cookie": "cookies", "body": "body"}
+        for loc, name, cont in impl_params:
+            want = loc2cont.get(loc) if loc else next((loc2cont[l] for n, l in TARGET_PARAMS if n == name), None)
+            if want is not None and cont != want:
+                chk.violation("C10:OpenApiLink._get_parameter_container:parameter-assigned-to-the-wrong-location",
+                              f"link parameter {name!r} (location {loc!r}) goes to {cont!r}; the target operation "
+                              f"declares it in {want!r}", rep)
         if impl_params != m["params"]:
             chk.disagreement("link:_normalize_parameters", rep, m["params"], impl_params)
             continue
@@ -923,19 +942,38 @@ def corr_state_machine(chk, cfg, examples):
     from schemathesis.core import NotSet
 
     schema = sm_schema()
-    log, counter = [], [0]
+    log = []
     statuses = [201, 400, 500, 201, 404, 201, 302, 503, 201, 422]
     shim_needed = not hasattr(RuleBasedStateMachine, "_add_result_to_targets")
 
-    class Workflow(schema.as_state_machine()):
+    from schemathesis.core.errors import InvalidStateMachine, NoLinksFound
+
+    def rejected(exc):
+        chk.case("state-machine", key="construction", nontrivial=True)
+        chk.violation("C10:state_machine:well-formed-link-definitions-rejected",
+                      "the state machine cannot be built although every link expression of the schema is well-formed: "
+                      + " | ".join(ln.strip() for ln in str(exc).splitlines()[:14] if ln.strip()),
+                      {"kind": "state-machine", "links": {k: {c: {n: e for n, (e, _) in ps.items()}
+                                                              for c, ps in v[1].items()} for k, v in SM_LINKS.items()}})
+
+    try:
+        base = schema.as_state_machine()
+    except (InvalidStateMachine, NoLinksFound) as exc:
+        return rejected(exc)
+
+    class Workflow(base):
         def step(self, input):  # noqa: A002
             out = super().step(input)
             log.append((input, out))
             return out
 
+        def setup(self):
+            self._k = 0        # the scripted API is a function of the scenario alone (Hypothesis replays scenarios)
+
         def call(self, case, **kwargs):
-            counter[0] += 1
-            k = counter[0]
+            self._k += 1
+            salt = len(case.body.get("name", "")) if isinstance(case.body, dict) else 0
+            k = self._k * 7 + salt
             st = statuses[k % len(statuses)] if case.operation.method.upper() == "POST" else 200
             body = {"id": k, "items": [1, 2, k + 1000], "name": f"n{k}", "tags": [f"t{k}"], "a/b": {"m~n": f"v{k}"}}
             return Response(status_code=st, headers={"Content-Type": ["application/json"], "X-Req": [f"r-{k}"]},
@@ -958,9 +996,12 @@ def corr_state_machine(chk, cfg, examples):
         chk.notes.append("state machine: ran with a harness-side adapter for Hypothesis' renamed "
                          "_add_results_to_targets; on the unadapted snapshot + Hypothesis 6.168 no link is ever followed")
 
-    Workflow.run(settings=settings(max_examples=examples, derandomize=True, database=None, deadline=None,
-                                   stateful_step_count=6, phases=[Phase.generate],
-                                   suppress_health_check=list(HealthCheck)))
+    try:
+        Workflow.run(settings=settings(max_examples=examples, derandomize=True, database=None, deadline=None,
+                                       stateful_step_count=6, phases=[Phase.generate],
+                                       suppress_health_check=list(HealthCheck)))
+    except (InvalidStateMachine, NoLinksFound) as exc:
+        return rejected(exc)
     by_id = {inp.case.id: (inp.case, out.response) for inp, out in log}
     drv = chk.driver()
     reqs, keep = [], []
